@@ -371,3 +371,73 @@ package types
 //@   params v
 //@   returns (res, ok)
 //@   ensures same: ok && res == v
+
+// ---- C17: cloning a card yields an equal value sharing no mutable storage --------------------
+
+//@ func (*Card).Clone
+//@   params c
+//@   returns res
+//@   requires card: c != nil
+//@   ensures same:  res.CardNumber == c.CardNumber && res.PIN == c.PIN && res.From.abs == c.From.abs && res.From.ns == c.From.ns && res.To.abs == c.To.abs && res.To.ns == c.To.ns
+//@   ensures doors: res.Doors != nil && res.Doors[1] == c.Doors[1] && res.Doors[2] == c.Doors[2] && res.Doors[3] == c.Doors[3] && res.Doors[4] == c.Doors[4]
+//@   ensures own:   fresh(res.Doors)
+
+// ---- C15: address parsing -----------------------------------------------------------------------
+// addr.isQuadPort(s) / addr.isQuad(s) / addr.hasQuad(s), addr.quadOf(s), addr.portOf(s): the abstract
+// grammar of "a.b.c.d[:port]" strings (see /verif/spec/addr.spec).
+
+//@ macro is4(a, bits, port) = a.AddrPort.ip.kind == 1 && a.AddrPort.ip.bits == bits && a.AddrPort.port == port
+
+// bind: default port 0, port 60000 not allowed
+//@ func ParseBindAddr
+//@   params s
+//@   returns (res, err)
+//@   ensures accept:  addr.isQuadPort(s) && addr.portOf(s) != 60000 ==> err == nil && is4(res, addr.quadOf(s), addr.portOf(s))
+//@   ensures rule:    addr.isQuadPort(s) && addr.portOf(s) == 60000 ==> err != nil
+//@   ensures default: addr.isQuad(s) ==> err == nil && is4(res, addr.quadOf(s), 0)
+//@   ensures none:    !addr.hasQuad(s) ==> err != nil
+
+// broadcast: default port 60000, port 0 not allowed
+//@ func ParseBroadcastAddr
+//@   params s
+//@   returns (res, err)
+//@   ensures accept:  addr.isQuadPort(s) && addr.portOf(s) != 0 ==> err == nil && is4(res, addr.quadOf(s), addr.portOf(s))
+//@   ensures rule:    addr.isQuadPort(s) && addr.portOf(s) == 0 ==> err != nil
+//@   ensures default: addr.isQuad(s) ==> err == nil && is4(res, addr.quadOf(s), 60000)
+//@   ensures none:    !addr.hasQuad(s) ==> err != nil
+
+// listen: the port is mandatory and neither 0 nor 60000
+//@ func ParseListenAddr
+//@   params s
+//@   returns (res, err)
+//@   ensures accept:  addr.isQuadPort(s) && addr.portOf(s) != 0 && addr.portOf(s) != 60000 ==> err == nil && is4(res, addr.quadOf(s), addr.portOf(s))
+//@   ensures rule:    addr.isQuadPort(s) && (addr.portOf(s) == 0 || addr.portOf(s) == 60000) ==> err != nil
+//@   ensures noport:  addr.isQuad(s) ==> err != nil
+//@   ensures none:    !addr.hasQuad(s) ==> err != nil
+
+// controller: default port 60000, port 0 not allowed
+//@ func ParseControllerAddr
+//@   params s
+//@   returns (res, err)
+//@   ensures accept:  addr.isQuadPort(s) && addr.portOf(s) != 0 ==> err == nil && is4(res, addr.quadOf(s), addr.portOf(s))
+//@   ensures rule:    addr.isQuadPort(s) && addr.portOf(s) == 0 ==> err != nil
+//@   ensures default: addr.isQuad(s) ==> err == nil && is4(res, addr.quadOf(s), 60000)
+//@   ensures none:    !addr.hasQuad(s) ==> err != nil
+
+// formatting an accepted address (the text omits the default port) and parsing it again returns it
+//@ func lemmaBindAddrText
+//@   params a
+//@   returns (res, ok)
+//@   ensures same: a.AddrPort.ip.kind == 1 && a.AddrPort.port != 60000 ==> ok && is4(res, a.AddrPort.ip.bits, a.AddrPort.port)
+//@ func lemmaBroadcastAddrText
+//@   params a
+//@   returns (res, ok)
+//@   ensures same: a.AddrPort.ip.kind == 1 && a.AddrPort.port != 0 ==> ok && is4(res, a.AddrPort.ip.bits, a.AddrPort.port)
+//@ func lemmaListenAddrText
+//@   params a
+//@   returns (res, ok)
+//@   ensures same: a.AddrPort.ip.kind == 1 && a.AddrPort.port != 0 && a.AddrPort.port != 60000 ==> ok && is4(res, a.AddrPort.ip.bits, a.AddrPort.port)
+//@ func lemmaControllerAddrText
+//@   params a
+//@   returns (res, ok)
+//@   ensures same: a.AddrPort.ip.kind == 1 && a.AddrPort.port != 0 ==> ok && is4(res, a.AddrPort.ip.bits, a.AddrPort.port)
